@@ -8,15 +8,10 @@ from the token list alone.  Under it every `Peek().(efp.Token)` finds its token 
 `Peek().(*list.List)` its list.
 -/
 import XlModel.Lemmas.CalcTotalStack
+import XlModel.Nest
 
 namespace XlModel.Lemmas.CalcTotalFn
 open XlModel XlModel.CalcTotal XlModel.Lemmas.CalcTotalStack
-
-/-- a frame of the nesting: function call or parenthesis -/
-inductive Fr
-  | F
-  | P
-  deriving DecidableEq, Repr
 
 /-- `opft` read from the top against the function stack and the frames -/
 def aligned : List Tok → List Tok → List Fr → Bool
@@ -333,55 +328,6 @@ theorem parseToken_aligned (S : Sem V) (t0 : Tok) (opd : List V) (opt opf : List
     exact parseToken_aligned_core S t0 t0 opd opt opf fs hres ha hend
 
 /-! ### token classes and the nesting checker -/
-
-inductive Cls
-  | fstart | fstop | arg | lparen | rparen | other
-  deriving DecidableEq, Repr
-
-def cls (t : Tok) : Cls :=
-  if isFuncStart t then .fstart
-  else if isFuncStop t then .fstop
-  else if t.ty == .argument then .arg
-  else if isBeginParen t then .lparen
-  else if isEndParen t then .rparen
-  else .other
-
-/-- the nesting a tokenizer guarantees: function calls and parentheses are properly nested
-(a Function Stop with nothing open is tolerated: efp emits an unmatched `)` that way), and an
-Argument separator never occurs directly inside a parenthesis.  `inner` = frames opened since
-the outermost open function (innermost first), `outer` = parentheses open outside any function. -/
-def nestStep (inner : List Fr) (outer : Nat) (t : Tok) : Option (List Fr × Nat) :=
-  match cls t with
-  | .fstart => some (.F :: inner, outer)
-  | .fstop =>
-    match inner with
-    | [] => some ([], outer)
-    | .F :: r => some (r, outer)
-    | .P :: _ => none
-  | .arg =>
-    match inner with
-    | .P :: _ => none
-    | _ => some (inner, outer)
-  | .lparen =>
-    match inner with
-    | [] => some ([], outer + 1)
-    | _ :: _ => some (.P :: inner, outer)
-  | .rparen =>
-    match inner with
-    | [] =>
-      match outer with
-      | 0 => none
-      | o + 1 => some ([], o)
-    | .P :: r => some (r, outer)
-    | .F :: _ => none
-  | .other => some (inner, outer)
-
-def nested : List Fr → Nat → List Tok → Bool
-  | _, _, [] => true
-  | i, o, t :: ts =>
-    match nestStep i o t with
-    | none => false
-    | some (i', o') => nested i' o' ts
 
 theorem cls_cases (t : Tok) :
     (cls t = .fstart ∧ isFuncStart t = true) ∨
